@@ -205,6 +205,10 @@ def count_matrices(tier, rng, boost=1):
         yield [[w[p[i]][p[j]] for j in range(n)] for i in range(n)], 'wielandt_perm'
         cyc = [[1 if j == (i + 1) % n else 0 for j in range(n)] for i in range(n)]
         yield cyc, 'cycle'
+    # large reducible matrices: a dense block plus isolated states (0/1 path counts of the block overflow a float near 24 states)
+    for m_, extra in ((24, [[1]]), (27, [[0]])) if tier == 'quick' else ((24, [[1]]), (27, [[0]]), (33, [[1]]), (40, [[1]])):
+        dense = [[1 + ((i * 7 + j * 3) % 3) for j in range(m_)] for i in range(m_)]
+        yield block_diag([dense, extra]), 'big_reducible'
     nrand = {'quick': 400, 'thorough': 6000, 'search': 1500}[tier] * boost
     for _ in range(nrand):
         kind = rng.choice(['irr', 'irr_per', 'two_closed', 'tie', 'transient', 'absorbing', 'unvisited', 'never_entered', 'mixed'])
